@@ -33,11 +33,23 @@ func (rc *arrayCodec) Read(r *ReadBuf, p unsafe.Pointer) error {
 			}
 		}
 
-		// If our array is nil or undersized then we can fix it up here.
-		*sh = rc.resizeSlice(*sh, int(count))
-
 		itemSize := rc.itemType.Size()
 		for i := int64(0); i < count; i++ {
+			if sh.Len == sh.Cap {
+				// If our array is nil or undersized then we can fix it up
+				// here. The count comes from the data, so we don't trust it
+				// beyond the number of bytes that are left (items normally
+				// take at least a byte). If items take no space we keep
+				// doubling as we go.
+				grow := count - i
+				if limit := int64(r.Len()) + 1; grow > limit {
+					grow = limit
+				}
+				if grow < int64(sh.Cap) {
+					grow = int64(sh.Cap)
+				}
+				*sh = rc.resizeSlice(*sh, int(grow))
+			}
 			cursor := unsafe.Pointer(uintptr(sh.Data) + uintptr(sh.Len)*itemSize)
 			if err := rc.itemCodec.Read(r, cursor); err != nil {
 				return fmt.Errorf("failed to decode array entry %d. %w", i, err)
